@@ -234,6 +234,7 @@ func (e *Engine) InitShared() {
 			nOK++
 		}
 	}
+	e.installPresets()
 	if os.Getenv("GOSYM_VERBOSE") != "" {
 		fmt.Fprintf(os.Stderr, "shared init: %d ok, %d failed, %d skipped in %v\n", nOK, nFail, nSkip, time.Since(t0))
 		var ks []string
